@@ -167,11 +167,17 @@ func drawStructuralCall(t *rapid.T, e *Env, p *Prog, sfx string, kinds []string,
 		}
 		if strings.HasSuffix(kind, "l") {
 			dc.Call = MinMaxList(which, ts(typ), sfx)
+			if u := typ.Under().Kind; (u == Ptr || u == Slice || u == Map) && rapid.IntRange(0, 2).Draw(t, "nildefault") == 0 {
+				dc.Call = MinMaxListNil(which, ts(typ), sfx)
+			}
 		} else {
 			dc.Call = MinMaxTwo(which, ts(typ), sfx)
 		}
 	case "contains":
 		dc.Call = Contains(ts(typ), sfx)
+		if u := typ.Under().Kind; (u == Ptr || u == Slice || u == Map) && rapid.IntRange(0, 2).Draw(t, "nilitem") == 0 {
+			dc.Call = ContainsNil(ts(typ), sfx)
+		}
 	case "unique":
 		dc.Call = Unique(ts(typ), sfx)
 	case "set":
